@@ -12,6 +12,13 @@ and passed to every public operation without an undocumented error; (4) every au
 returned by an operation — with automatic validation switched off during the call — passes
 validate(); (5) the four combinations of should_validate_automata / allow_mutable_automata
 give the same results on valid inputs; (6) rows keyed by non-states never change a result.
+
+"Undocumented error" is judged per operation: harness/misc_common.documented_reason looks the
+operation up in a table generated from the docstring "Raises" sections of the code under test
+(harness/extract_misc.documented_raises / doc_closure); e.g. DFA.union documents nothing, so any
+exception it raises on valid operands over one alphabet is a violation.  Results that differ
+only in generated state names are compared by an EXACT language comparison (product BFS,
+harness/langoracle.py) plus equal state counts.
 """
 from __future__ import annotations
 
@@ -33,7 +40,18 @@ RULE = ("cases = (class, definition, expectation): valid-by-documentation defini
         "under the four option combinations. Non-trivial: the definition has ≥2 states and ≥1 transition; distinct "
         "= distinct (class, encoded definition, expectation/op) tuples")
 ASSUMPTIONS = [
-    "definitions are type-correct (the container shapes of the class docstrings); names hashable, symbols single characters",
+    "definitions are type-correct (the container shapes of the class docstrings); names hashable",
+    "input / stack / tape symbols are single characters (review finding X3, a documented domain restriction: the library reads "
+    "an input *str* character by character, so a multi-character symbol such as 'ab' — which validate() accepts — is only "
+    "usable with list inputs, d.accepts_input(['ab']); words_of_length joins symbols into a str that `in` then reads per "
+    "character). Generators draw single-character alphabets only",
+    "'documented exception' = named in the Raises section of the method docstring (AST walk over the code under test; wrappers "
+    "inherit from the methods they call, minus what they catch) or, for RejectionException on the read_input family and "
+    "SymbolMismatchError on binary operations over different alphabets, in the exception class docstring; a docstring "
+    "without a Raises section means 'raises nothing'",
+    "calls are made on objects the harness keeps a reference to, except in the `temporary` family (open finding "
+    "C06:cached-query-on-temporary); MNTM.read_input_as_ntm with '^' / '_' among the tape symbols is the open finding "
+    "C17:mark-symbol-in-alphabet-or-input",
     "GNFA labels: re._validate is an oracle bit supplied by the real code (the regex validator is the subject of C11)",
     "list-as-set model: the states container has no duplicates (it is a Python set)",
     "non-terminating PDA/TM runs are cut after 40 steps (or 150 simultaneous configurations); read_input/accepts_input are only called when the bounded stepwise run ended",
@@ -395,8 +413,16 @@ def corpus(ctx: Ctx, rng):
                transitions={0: {"": {"Z": (0, ""), "": (1, "Z")}}}, initial_state=0, initial_stack_symbol="Z",
                final_states={1}, acceptance_mode="final_state")  # the empty stack made a move: '' accepted
     npda = dict(pda, transitions={0: {"": {"Z": {(0, "")}, "": {(1, "Z")}}}})
+    # F33 (fixed f47420f): a ROW keyed by None passed validate(); isfinite / len / successor / the NFA's
+    # lambda closures then raised networkx's ValueError "None cannot be a node"
+    f33 = dict(states={0, 1}, input_symbols={"a"}, transitions={0: {"a": 1}, 1: {"a": 1}, None: {"a": 0}},
+               initial_state=0, final_states={1}, allow_partial=False)
+    f33n = dict(states={0, 1}, input_symbols={"a"}, transitions={0: {"a": {1}}, None: {"": {0}, "a": {1}}},
+                initial_state=0, final_states={1})
     for cls, k, exp, rule in (("DFA", x1, "InvalidStateError", "reserved_state_name_none"),
                               ("DFA", x1b, "InvalidStateError", "reserved_state_name_none"),
+                              ("DFA", f33, "InvalidStateError", "reserved_state_name_none"),
+                              ("NFA", f33n, "InvalidStateError", "reserved_state_name_none"),
                               ("NFA", ed, "InvalidSymbolError", "reserved_input_symbol_empty"),
                               ("DPDA", pda, "InvalidSymbolError", "reserved_stack_symbol_empty"),
                               ("NPDA", npda, "InvalidSymbolError", "reserved_stack_symbol_empty")):
@@ -471,6 +497,15 @@ def temporaries_probe(ctx: Ctx, rng):
 # ------------------------------------------------------------------ run
 def run(ctx: Ctx):
     rng = ctx.rng
+    # the table (3)/(4) are judged against, as derived from the code under test in this run
+    table = {}
+    for cls in G.CLASSES:
+        for name, _ in M.unary_ops(cls) + M.binary_ops(cls):
+            table[name] = M.documented_classes(name)
+    ctx.sample({"documented exception classes per operation (docstring Raises sections; unlisted operations: none)":
+                {k: v for k, v in sorted(table.items()) if v}})
+    ctx.stat("documented_table:operations", len(table))
+    ctx.stat("documented_table:operations_that_may_raise", sum(1 for v in table.values() if v))
     corpus(ctx, rng)
     for _ in range(ctx.budget(6, 60)):
         temporaries_probe(ctx, rng)
